@@ -134,6 +134,7 @@ func runB1(p *an.Prog, r *an.Result) {
 		// the list the renderer walks is built by appending at the end, in clause order
 		comp := b.Compiler
 		appends := 0
+		branchAppends := map[*ssa.Function][]*ssa.Call{}
 		compUnit := unitWithHelpers(p, comp)
 		for _, cu := range compUnit {
 			an.EachInstr(cu, func(in ssa.Instruction) {
@@ -184,6 +185,7 @@ func runB1(p *an.Prog, r *an.Result) {
 					return
 				}
 				appends++
+				branchAppends[cu] = append(branchAppends[cu], c)
 				// first operand must be the accumulator itself (append at the end): the variable the result is assigned to
 				first := an.Deref(c.Call.Args[0])
 				isAcc := false
@@ -213,6 +215,43 @@ func runB1(p *an.Prog, r *an.Result) {
 		}
 		if appends == 0 {
 			r.Bad(roles.Label(comp), "no branch accumulation found", an.FuncPos(comp), "the compiler does not build its branch list by append")
+		}
+		// one branch per clause: no iteration over the clauses gets back to the loop header without appending
+		for _, cu := range compUnit {
+			marks := map[*ssa.BasicBlock]bool{}
+			for _, ac := range branchAppends[cu] {
+				marks[ac.Block()] = true
+			}
+			an.EachInstr(cu, func(in ssa.Instruction) {
+				ia, ok := in.(*ssa.IndexAddr)
+				if !ok || !isForwardRangeIndex(ia.Index) || len(marks) == 0 {
+					return
+				}
+				if _, isSl := ia.X.Type().Underlying().(*types.Slice); !isSl {
+					return
+				}
+				if iterationCanSkip(ia.Block(), marks) {
+					r.Bad(roles.Label(comp), "a clause can be left out of the branch list", ia.Pos(), "an iteration over the clauses reaches the next one without appending a branch: the renderer would skip that clause and take a later one")
+				} else {
+					r.OK(roles.Label(comp), "every clause yields a branch", ia.Pos(), "each iteration of the clause loop appends or returns an error")
+				}
+			})
+		}
+		// the decision: a value evaluated in the renderer is only compared with nil and false,
+		// or handed to the generic equality / the clause's own test
+		for _, f := range unitWithHelpers(p, fn) {
+			an.EachInstr(f, func(in ssa.Instruction) {
+				c, ok := in.(*ssa.Call)
+				if !ok || an.CallName(&c.Call) != "(render.Context).Evaluate" {
+					return
+				}
+				r.Counts["condition values"]++
+				if why, pos := truthinessOnly(p, c, 0, map[ssa.Value]bool{}); why == "" {
+					r.OK(roles.Label(f), "condition value decides by nil/false only", c.Pos(), "every use is a comparison with nil or false, values.Equal, or the clause test")
+				} else {
+					r.Bad(roles.Label(f), "condition value is judged by something other than truthiness", pos, why+": a condition is true exactly when its value is neither nil nor false")
+				}
+			})
 		}
 		// the loop over node.Clauses is a forward range: the appended clause is Clauses[rangeindex]
 		fwd := false
@@ -469,7 +508,10 @@ func runB3(p *an.Prog, r *an.Result) {
 		r.Bad(name, "expressions.Not calls", an.FuncPos(comp), fmt.Sprintf("expected exactly one call of expressions.Not, found %d", len(notCalls)))
 	}
 	// else: Constant(true)
-	cs := callsNamed(comp, "expressions.Constant")
+	var cs []*ssa.Call
+	for _, cu := range unitWithHelpers(p, comp) {
+		cs = append(cs, callsNamed(cu, "expressions.Constant")...)
+	}
 	if len(cs) == 0 {
 		r.Bad(name, "no Constant test for else", an.FuncPos(comp), "the else clause has no constant test")
 	}
@@ -777,7 +819,7 @@ func runB6(p *an.Prog, r *an.Result) {
 			cmp := false
 			if u.Referrers() != nil {
 				for _, uu := range *u.Referrers() {
-					if b, ok := uu.(*ssa.BinOp); ok && b.Op == token.EQL {
+					if b, ok := uu.(*ssa.BinOp); ok && (b.Op == token.EQL || b.Op == token.NEQ) {
 						cmp = true
 					}
 				}
@@ -808,7 +850,7 @@ func runB6(p *an.Prog, r *an.Result) {
 		found := false
 		an.EachInstr(loopFn, func(in ssa.Instruction) {
 			b, ok := in.(*ssa.BinOp)
-			if !ok || b.Op != token.EQL {
+			if !ok || (b.Op != token.EQL && b.Op != token.NEQ) {
 				return
 			}
 			var lhs ssa.Value
@@ -878,7 +920,12 @@ func runB6(p *an.Prog, r *an.Result) {
 					dfs(s)
 				}
 			}
-			dfs(ifi.Block().Succs[0])
+			// the edge on which the cause IS the sentinel
+			if b.Op == token.EQL {
+				dfs(ifi.Block().Succs[0])
+			} else {
+				dfs(ifi.Block().Succs[1])
+			}
 			construct := "body error cause == " + g.Name()
 			switch {
 			case retErr:
@@ -1038,21 +1085,9 @@ func runB8(p *an.Prog, r *an.Result) {
 			}
 			// key: the captured variable name, which the compiler took from node.Args
 			okKey := false
-			if u, ok := s.Call.Args[0].(*ssa.UnOp); ok {
-				if fv, ok := u.X.(*ssa.FreeVar); ok {
-					for _, mc := range escapes(p).sites[fn] {
-						for i, bnd := range mc.Bindings {
-							if fn.FreeVars[i] == fv {
-								if al, ok := bnd.(*ssa.Alloc); ok {
-									for _, st := range an.Stores(al) {
-										if strings.HasSuffix(describe(p, st), ".Args") {
-											okKey = true
-										}
-									}
-								}
-							}
-						}
-					}
+			for _, o := range originsThroughCaptures(p, s.Call.Args[0]) {
+				if strings.HasSuffix(describe(p, o), ".Args") {
+					okKey = true
 				}
 			}
 			if okVal && okKey {
@@ -1077,13 +1112,17 @@ func runB8(p *an.Prog, r *an.Result) {
 			okVal, okKey := false, false
 			if ex, ok := val.(*ssa.Extract); ok && ex.Index == 0 {
 				if c, ok := ex.Tuple.(*ssa.Call); ok && an.CallName(&c.Call) == "(render.Context).Evaluate" {
-					if strings.HasSuffix(describe(p, an.Strip(c.Call.Args[0])), "Assignment.ValueFn") {
-						okVal = true
+					for _, o := range originsThroughCaptures(p, c.Call.Args[0]) {
+						if strings.HasSuffix(describe(p, an.Strip(o)), "Assignment.ValueFn") {
+							okVal = true
+						}
 					}
 				}
 			}
-			if strings.HasSuffix(describe(p, s.Call.Args[0]), "Assignment.Variable") {
-				okKey = true
+			for _, o := range originsThroughCaptures(p, s.Call.Args[0]) {
+				if strings.HasSuffix(describe(p, o), "Assignment.Variable") {
+					okKey = true
+				}
 			}
 			if okVal && okKey {
 				r.OK(name, "Set(Assignment.Variable, Evaluate(Assignment.ValueFn))", s.Pos(), "binds the evaluated right-hand side under the parsed name")
@@ -1545,6 +1584,7 @@ func runB10(p *an.Prog, r *an.Result) {
 		r.Bad(name, "loop variable is not iter.Index(i)", i.Pos(), "the item of iteration i must be iter.Index(i)")
 	}
 	// the forloop map
+	records := map[*ssa.MakeMap]bool{}
 	fields := map[string]ssa.Value{}
 	pos := map[string]token.Pos{}
 	an.EachInstr(fn, func(in ssa.Instruction) {
@@ -1558,8 +1598,18 @@ func runB10(p *an.Prog, r *an.Result) {
 		if k, ok := an.ConstString(mu.Key); ok {
 			fields[k] = an.Strip(mu.Value)
 			pos[k] = mu.Pos()
+			records[mu.Map.(*ssa.MakeMap)] = true
 		}
 	})
+	// the record is a new map in every iteration: a template can keep it (assign f = forloop) and must
+	// find the values of the iteration in which it took it
+	for mm := range records {
+		if ib, ok := ssa.Value(i).(*ssa.Phi); ok && ib.Block().Dominates(mm.Block()) && mm.Block() != ib.Block() {
+			r.OK(name, "the forloop record is allocated inside the loop", mm.Pos(), "one map per iteration")
+		} else {
+			r.Bad(name, "the forloop record is shared by all iterations", mm.Pos(), "the loop record is allocated once and overwritten: a value that holds the record (assign f = forloop) changes under the template's feet")
+		}
+	}
 	I, L := ssa.Value(i), ssa.Value(l)
 	ints := map[string]struct {
 		c    int64
@@ -1999,4 +2049,115 @@ func runB13(p *an.Prog, r *an.Result) {
 		r.Bad(name, "does not write values[n % len(values)]", an.FuncPos(fn), "round-robin over the tag's values")
 	}
 	r.Floor("cycle facts", 2)
+}
+
+// truthinessOnly follows a condition value (the result of Evaluate) forward and reports the first
+// use that is not a comparison with nil or false, an error check, values.Equal, or a clause test.
+func truthinessOnly(p *an.Prog, v ssa.Value, depth int, seen map[ssa.Value]bool) (string, token.Pos) {
+	if seen[v] || depth > 8 || v.Referrers() == nil {
+		return "", token.NoPos
+	}
+	seen[v] = true
+	for _, u := range *v.Referrers() {
+		switch x := u.(type) {
+		case *ssa.DebugRef:
+		case *ssa.Extract:
+			if x.Index == 0 {
+				if why, pos := truthinessOnly(p, x, depth+1, seen); why != "" {
+					return why, pos
+				}
+			}
+		case *ssa.Phi, *ssa.MakeInterface, *ssa.ChangeInterface:
+			if why, pos := truthinessOnly(p, x.(ssa.Value), depth+1, seen); why != "" {
+				return why, pos
+			}
+		case *ssa.BinOp:
+			other := x.Y
+			if x.Y == v {
+				other = x.X
+			}
+			if (x.Op == token.EQL || x.Op == token.NEQ) && (an.IsNilConst(other) || isFalseIface(other)) {
+				continue
+			}
+			return "it is compared with " + describe(p, other), x.Pos()
+		case *ssa.Call:
+			cn := an.CallName(&x.Call)
+			if cn == "values.Equal" {
+				continue
+			}
+			if x.Call.IsInvoke() && x.Call.Value != v {
+				// an argument of an interface method of the module (the clause's test)
+				if n := an.NamedOf(x.Call.Value.Type()); n != nil && an.IsModulePkg(n.Obj().Pkg()) && an.RelPkg(n.Obj().Pkg().Path()) == "tags" {
+					continue
+				}
+			}
+			if callee := x.Call.StaticCallee(); callee != nil && p.InModule(callee) && callee.Pkg != nil && an.RelPkg(callee.Pkg.Pkg.Path()) == "tags" {
+				for i, a := range x.Call.Args {
+					if a == v && i < len(callee.Params) {
+						if why, pos := truthinessOnly(p, callee.Params[i], depth+1, seen); why != "" {
+							return why, pos
+						}
+					}
+				}
+				continue
+			}
+			return "it is handed to " + nonEmpty(cn, "a dynamic call"), x.Pos()
+		default:
+			return fmt.Sprintf("it is used by %T", u), u.Pos()
+		}
+	}
+	return "", token.NoPos
+}
+
+// isFalseIface: the constant false, possibly boxed.
+func isFalseIface(v ssa.Value) bool {
+	if mi, ok := v.(*ssa.MakeInterface); ok {
+		v = mi.X
+	}
+	c, ok := an.ConstBool(v)
+	return ok && !c
+}
+
+// originsThroughCaptures: the origins of v, where a read of a captured variable continues with
+// what the enclosing function stored into it (a local hoisted out of the closure).
+func originsThroughCaptures(p *an.Prog, v ssa.Value) []ssa.Value {
+	var out []ssa.Value
+	seen := map[ssa.Value]bool{}
+	var visit func(v ssa.Value, depth int)
+	visit = func(v ssa.Value, depth int) {
+		if v == nil || seen[v] || depth > 8 {
+			return
+		}
+		seen[v] = true
+		for _, o := range an.Origins(v, an.StepValue) {
+			out = append(out, o)
+			var fv *ssa.FreeVar
+			switch x := o.(type) {
+			case *ssa.FreeVar:
+				fv = x
+			case *ssa.UnOp:
+				if f, ok := x.X.(*ssa.FreeVar); ok && x.Op == token.MUL {
+					fv = f
+				}
+			}
+			if fv == nil || fv.Parent() == nil || fv.Parent().Parent() == nil {
+				continue
+			}
+			cell := cellOfFreeVar(fv.Parent().Parent(), fv.Parent(), fv)
+			if cell == nil {
+				continue
+			}
+			if al, ok := cell.(*ssa.Alloc); ok {
+				for _, sv := range an.Stores(al) {
+					out = append(out, sv)
+					visit(sv, depth+1)
+				}
+			} else {
+				out = append(out, cell)
+				visit(cell, depth+1)
+			}
+		}
+	}
+	visit(v, 0)
+	return out
 }
